@@ -18,7 +18,7 @@ for p in props:
     c = cfg["checks"].get(pid)
     if not c:
         continue
-    checks.append({
+    entry = {
         "property_id": pid,
         "quick_cmd": f"./check {pid} --tier quick",
         "thorough_cmd": f"./check {pid} --tier thorough",
@@ -28,7 +28,12 @@ for p in props:
         "level_claimed": {"category": c.get("level", cfg["defaults"]["level"]), "text": c["level_text"], "design_ref": f"DESIGN.md section 6, {pid}"},
         "level_note": c["level_note"],
         "technique": c["technique"],
-    })
+    }
+    # a thorough tier that has not been run to exit 0 on the final tree is not registered (the tier still exists in
+    # cfg and can be run by hand); DESIGN.md section 9 says which and why
+    if c.get("thorough_unvalidated"):
+        del entry["thorough_cmd"]
+    checks.append(entry)
 na = []
 for p in props:
     if p["id"] not in cfg["checks"]:
